@@ -40,7 +40,7 @@ def build_peaks(case):
 @st.composite
 def params(draw, weight_default=2):
     out = {}
-    space = {"sp": [500, 2000], "dp": [0.5, 2.0], "su": [0, -100, -600], "d": [200, 800, 3000, 8000],
+    space = {"sp": [500, 2000], "dp": [0.5, 2.0, 0.35], "su": [0, -100, -600], "d": [200, 800, 3000, 8000],
              "ms": [1, 500, 2000], "bs": [0, 600, 2500], "ss": [1], "sj": [0.5, 2.0]}
     for k, vals in space.items():
         v = draw(st.sampled_from([None] * weight_default + vals))
